@@ -413,6 +413,7 @@ func ruleTemplateBinding(r *Run) {
 func ruleDropKeep(r *Run) {
 	p := r.P
 	eng := modPath + "/" + enginePkg
+	preds := map[string]*ssa.Function{}
 	for _, s := range []struct {
 		typ, pred string
 		delOn     bool
@@ -427,25 +428,73 @@ func ruleDropKeep(r *Run) {
 		var pc *ssa.Call
 		var del ssa.CallInstruction
 		for _, c := range callsIn(cl) {
-			if call, ok := c.(*ssa.Call); ok && callIs(call, eng, "(*"+s.typ+")."+s.pred) {
-				pc = call
-			}
 			if callIs(c, eng, "(*LabelSet).Delete") {
 				del = c
+			}
+		}
+		// the selection predicate: the same-package call whose verdict decides whether Delete runs
+		// (a method of the stage, or a function shared by both stages)
+		if del != nil {
+			for _, c := range callsIn(cl) {
+				call, ok := c.(*ssa.Call)
+				if !ok {
+					continue
+				}
+				callee := staticCallee(call)
+				if callee == nil || callee.Blocks == nil || callee.Pkg != fn.Pkg {
+					continue
+				}
+				if bt, ok := call.Type().Underlying().(*types.Basic); !ok || bt.Kind() != types.Bool {
+					continue
+				}
+				if _, known := knownBoolAt(del.Block(), call); known {
+					pc = call
+				}
 			}
 		}
 		if pc == nil || del == nil {
 			o.Fail(r.pos(cl.Pos()), "predicate call=%v Delete call=%v", pc != nil, del != nil)
 			continue
 		}
+		preds[s.typ] = staticCallee(pc)
 		bad := false
 		if b, known := knownBoolAt(del.Block(), pc); !known || b != s.delOn {
 			bad = true
 			o.Fail(r.pos(del.Pos()), "the label is deleted when the selection predicate is %v (known=%v), expected %v", b, known, s.delOn)
 		}
-		if del.Common().Args[1] != ssa.Value(cl.Params[0]) || pc.Call.Args[1] != ssa.Value(cl.Params[0]) || pc.Call.Args[2] != ssa.Value(cl.Params[1]) {
+		hasArg := func(c ssa.CallInstruction, v ssa.Value) bool {
+			for _, a := range c.Common().Args {
+				if a == v {
+					return true
+				}
+			}
+			return false
+		}
+		if del.Common().Args[1] != ssa.Value(cl.Params[0]) || !hasArg(pc, cl.Params[0]) || !hasArg(pc, cl.Params[1]) {
 			bad = true
 			o.Fail(r.pos(del.Pos()), "predicate/Delete are not applied to the iterated label and its value")
+		}
+		// the predicate consults this stage's own name set and matchers
+		nameField := map[string]string{"DropLabels": "drop", "KeepLabels": "keep"}[s.typ]
+		usesOwn := func(field string) bool {
+			for _, a := range pc.Call.Args {
+				if f, base, ok := loadOfField(a); ok && f == field && originValue(base) == originValue(ssa.Value(fn.Params[0])) {
+					return true
+				}
+				if originValue(a) == originValue(ssa.Value(fn.Params[0])) || a == ssa.Value(fn.Params[0]) {
+					return true // the stage itself is handed to its predicate method
+				}
+				if fv, ok := a.(*ssa.UnOp); ok {
+					if _, isFV := fv.X.(*ssa.FreeVar); isFV && originValue(a) == ssa.Value(fn.Params[0]) {
+						return true
+					}
+				}
+			}
+			return false
+		}
+		if !usesOwn(nameField) || !usesOwn("matchers") {
+			bad = true
+			o.Fail(r.pos(pc.Pos()), "the selection predicate is not given this stage's own %s set and matchers", nameField)
 		}
 		// the callback is run for every label: set.Range(cb)
 		ranged := false
@@ -463,11 +512,10 @@ func ruleDropKeep(r *Run) {
 		}
 	}
 	// the two predicates are the same function of (named set, matchers)
-	dp := p.Method(enginePkg, "DropLabels", "dropPair")
-	kp := p.Method(enginePkg, "KeepLabels", "keepPair")
+	dp, kp := preds["DropLabels"], preds["KeepLabels"]
 	o := r.Ob("CH-SIB", "logqlengine dropPair/keepPair", "a label is selected iff it is named or has matchers, and all of its matchers accept its value – identically for drop and keep")
 	if dp == nil || kp == nil {
-		o.Fail("-", "dropPair/keepPair not found")
+		o.Fail("-", "the selection predicates of drop and keep were not identified")
 		return
 	}
 	sum := func(fn *ssa.Function) (string, bool) {
